@@ -92,6 +92,30 @@ class Cutter(ast.NodeTransformer):
                                                     args=[ast.Constant(value=node.targets[0].id)], keywords=[]), node.value)
         return node
 
+    def visit_JoinedStr(self, node):
+        self.generic_visit(node)
+        if not self.route:
+            return node
+        parts = []
+        for v in node.values:
+            if isinstance(v, ast.Constant):
+                parts.append(v)
+            elif isinstance(v, ast.FormattedValue) and v.conversion == -1 and v.format_spec is None:
+                parts.append(v.value)
+            else:
+                return node        # conversions / format specs: left to CPython (fails loudly on proxies)
+        self.log.append("line %d: f-string -> _pyvc_fstr([...])" % node.lineno)
+        return ast.copy_location(ast.Call(func=ast.Name(id="_pyvc_fstr", ctx=ast.Load()),
+                                          args=[ast.List(elts=parts, ctx=ast.Load())], keywords=[]), node)
+
+    def visit_BinOp(self, node):
+        self.generic_visit(node)
+        if self.route and isinstance(node.op, ast.Mod) and isinstance(node.left, ast.Constant) and isinstance(node.left.value, (str, bytes)):
+            self.log.append("line %d: %%-format -> _pyvc_percent(...)" % node.lineno)
+            return ast.copy_location(ast.Call(func=ast.Name(id="_pyvc_percent", ctx=ast.Load()),
+                                              args=[node.left, node.right], keywords=[]), node)
+        return node
+
     def _loop(self, node, is_for):
         self.k += 1
         k = self.k
@@ -424,7 +448,62 @@ def p_bytes(x=b"", *a):
     return bytes(x, *a)
 
 
-HELPERS = {"_pyvc_len": p_len, "_pyvc_isinstance": p_isinstance, "_pyvc_int": p_int,
+def p_fstr(parts):
+    if not any(isinstance(x, Proxy) for x in parts):
+        return "".join(x if isinstance(x, str) else format(x) for x in parts)
+    out = None
+    for x in parts:
+        if isinstance(x, SInt):
+            x = p_str(x)
+        elif isinstance(x, SStr):
+            if x.is_bytes:
+                raise core.Unsupported("bytes value in an f-string")
+        elif isinstance(x, Proxy):
+            raise core.Unsupported("f-string with %s" % type(x).__name__)
+        elif not isinstance(x, str):
+            x = format(x)
+        out = x if out is None else out + x
+    return out if out is not None else ""
+
+
+def p_percent(fmt, args):
+    tup = args if isinstance(args, tuple) else (args,)
+    if not any(isinstance(x, Proxy) for x in tup):
+        return fmt % args
+    import re as _re
+    is_b = isinstance(fmt, bytes)
+    f = fmt.decode("latin1") if is_b else fmt
+    pieces = _re.split(r"(%[sdrix%])", f)
+    it = iter(tup)
+    out = None
+    for p in pieces:
+        if p == "%%":
+            v = "%"
+        elif p in ("%s", "%d", "%i"):
+            v = next(it)
+            if isinstance(v, SInt):
+                v = p_str(v)
+            elif isinstance(v, SStr):
+                pass
+            elif isinstance(v, Proxy):
+                raise core.Unsupported("%%-format of %s" % type(v).__name__)
+            else:
+                v = (p % v)
+        elif p.startswith("%") and len(p) == 2:
+            raise core.Unsupported("%%-format conversion %s on a symbolic value" % p)
+        else:
+            if "%" in p:
+                raise core.Unsupported("%%-format spec in %r on symbolic values" % p)
+            v = p
+        if v == "":
+            continue
+        if is_b and isinstance(v, str):
+            v = v.encode("latin1")
+        out = v if out is None else out + v
+    return out if out is not None else (b"" if is_b else "")
+
+
+HELPERS = {"_pyvc_fstr": p_fstr, "_pyvc_percent": p_percent, "_pyvc_len": p_len, "_pyvc_isinstance": p_isinstance, "_pyvc_int": p_int,
            "_pyvc_min": p_min, "_pyvc_max": p_max, "_pyvc_bool": p_bool, "_pyvc_str": p_str,
            "_pyvc_abs": p_abs, "_pyvc_bytes": p_bytes, "_pyvc_range": p_range,
            "_pyvc_newdict": lambda name: {}, "_pyvc_newlist": lambda name: []}
@@ -452,6 +531,13 @@ def rewrite_function(fn, cut_loops=(), extra_globals=None, route=True):
     ast.increment_lineno(tree, fn.__code__.co_firstlineno - 1)
     fdef = tree.body[0]
     fdef.decorator_list = []
+    # defaults and annotations are evaluated at def time in the *defining* scope (e.g. class attributes):
+    # neutralise them here; the original __defaults__/__kwdefaults__ objects are re-attached below
+    fdef.args.defaults = [ast.Constant(value=None) for _ in fdef.args.defaults]
+    fdef.args.kw_defaults = [None if d is None else ast.Constant(value=None) for d in fdef.args.kw_defaults]
+    fdef.returns = None
+    for a_ in fdef.args.posonlyargs + fdef.args.args + fdef.args.kwonlyargs + [x for x in (fdef.args.vararg, fdef.args.kwarg) if x]:
+        a_.annotation = None
     cutter = Cutter(cut_loops, route)
     # visit only the body so that loop ordinals count this function's loops (incl. nested defs)
     fdef.body = [x for s in fdef.body for x in _aslist(cutter.visit(s))]
@@ -583,9 +669,9 @@ def _routed(fn):
     new = None
     try:
         src = inspect.getsource(fn)
-        if any(("%s(" % b) in src for b in ROUTED):
+        if any(("%s(" % b) in src for b in ROUTED) or 'f"' in src or "f'" in src or '" %' in src or "' %" in src:
             new, _ = rewrite_function(fn, (), route=True)
-    except (OSError, TypeError, SyntaxError, core.Unsupported, IndentationError):
+    except (Exception, core.Unsupported):      # anything that cannot be recompiled stays as it is
         new = None
     _ROUTED_CACHE[key] = new
     return new
